@@ -217,6 +217,9 @@ def observe(m, o):
         p = params(o)
         s = m.get_initial_population(p)
         return {"initial_population": vec(s.values), "labels": list(s.index)}
+    if k == "oracle":
+        import oracles
+        return oracles.run_oracle(m, o)
     if k == "qcomps":
         q = dict(o.get("filt") or {})
         if o.get("name"):
